@@ -3,6 +3,7 @@ package bind
 import (
 	"encoding/json"
 	"flag"
+	"fmt"
 	"math/rand"
 	"os"
 
@@ -64,34 +65,82 @@ func (t *Targets) clean() {
 	t.Rec.SetRecording(true)
 }
 
+// safeRun runs the program and converts a panic inside gorm into a result with an error.
+func safeRun(base *gorm.DB, p Prog) (res *gorm.DB, panicked string) {
+	defer func() {
+		if v := recover(); v != nil {
+			panicked = fmt.Sprint(v)
+			res = base.Session(&gorm.Session{NewDB: true})
+			res.Statement.SQL.Reset()
+		}
+	}()
+	return Run(base, p), ""
+}
+
 func (t *Targets) runAll(w *hx.Writer, caseNo int, p Prog) {
 	// C01: dummy dialects, DryRun
 	for _, tg := range []struct {
 		name string
 		db   *gorm.DB
 	}{{"q", t.Q}, {"d", t.D}} {
-		res := Run(tg.db, p)
-		w.Emit(stmtEvent(caseNo, tg.name, p, res.Statement.SQL.String(), res.Statement.Vars))
+		res, pan := safeRun(tg.db, p)
+		ev := stmtEvent(caseNo, tg.name, p, res.Statement.SQL.String(), res.Statement.Vars)
+		ev["panic"] = pan
+		w.Emit(ev)
 	}
 	// real SQLite through the recording driver
 	t.clean()
 	t.Rec.Reset()
-	Run(t.Real, p)
+	_, pan := safeRun(t.Real, p)
 	realSQL, realVars, _, _ := mainStmt(t.Rec.Events())
-	w.Emit(stmtEvent(caseNo, "real", p, realSQL, realVars))
+	rev := stmtEvent(caseNo, "real", p, realSQL, realVars)
+	rev["panic"] = pan
+	w.Emit(rev)
 	// C19: the same operation in DryRun mode and through ToSQL on the identical database
 	t.clean()
 	t.Rec.Reset()
-	dry := Run(t.Real.Session(&gorm.Session{DryRun: true}), p)
+	dry, dpan := safeRun(t.Real.Session(&gorm.Session{DryRun: true}), p)
 	_, _, dryStmts, _ := mainStmt(t.Rec.Events())
 	t.clean()
 	t.Rec.Reset()
-	_ = t.Real.ToSQL(func(tx *gorm.DB) *gorm.DB { return Run(tx, p) })
+	func() {
+		defer func() {
+			if v := recover(); v != nil {
+				dpan += fmt.Sprint(v)
+			}
+		}()
+		_ = t.Real.ToSQL(func(tx *gorm.DB) *gorm.DB { return Run(tx, p) })
+	}()
 	_, _, _, tosqlTotal := mainStmt(t.Rec.Events())
+	// ToSQL started from a handle that already carries chained state (a scoped handle): the text it
+	// shows must be the statement the same scoped handle sends for real
+	scoped := func(db *gorm.DB) *gorm.DB { return db.Where("c4 >= ?", int64(0)).Session(&gorm.Session{}) }
+	t.clean()
+	t.Rec.Reset()
+	scopedText := ""
+	func() {
+		defer func() {
+			if v := recover(); v != nil {
+				dpan += fmt.Sprint(v)
+			}
+		}()
+		scopedText = scoped(t.Real).ToSQL(func(tx *gorm.DB) *gorm.DB { return Run(tx, p) })
+	}()
+	_, _, _, n2 := mainStmt(t.Rec.Events())
+	tosqlTotal += n2
+	t.clean()
+	t.Rec.Reset()
+	safeRun(scoped(t.Real), p)
+	sReal, sVars, _, _ := mainStmt(t.Rec.Events())
+	scopedReal := t.Real.Dialector.Explain(sReal, sVars...)
+	if p.Fin.Kind == "create" || p.Fin.Kind == "create_slice" || p.Fin.Kind == "create_map" || p.Fin.Kind == "upsert" || p.Fin.Kind == "raw" || p.Fin.Kind == "exec" || p.Fin.Kind == "rows" {
+		scopedText, scopedReal = "", "" // these finishers start from the base handle / raw SQL: the scope does not apply
+	}
 	rp, _ := json.Marshal(p)
 	w.Emit(hx.M{"ev": "Dry", "case": caseNo, "prog": progJ(p), "rprog": string(rp),
 		"dry_sql": dry.Statement.SQL.String(), "dry_vals": idsOf(dry.Statement.Vars), "dry_stmts": dryStmts,
-		"real_sql": realSQL, "real_vals": idsOf(realVars), "tosql_calls": tosqlTotal})
+		"real_sql": realSQL, "real_vals": idsOf(realVars), "tosql_calls": tosqlTotal,
+		"scoped_tosql": scopedText, "scoped_real": scopedReal, "panic": dpan})
 }
 
 func random(args []string) error {
